@@ -137,6 +137,13 @@ def run(ctx):
                     return
                 if len(ids) > 30:
                     ids[:] = ids[-10:]
+        # a body read from stdin in chunks: 2-, 3- and 4-byte characters lying across every likely chunk boundary
+        for mode in ("new-bodystdin", "set-bodystdin", "epic-bodystdin"):
+            for boundary in ((4096, 65536, 131072) if ctx.quick else (512, 4096, 8192, 32768, 65536, 131072, 262144)):
+                ch = r.pick(["é", "€", "\U0001F600", "日"])
+                body = "".join("a" * (boundary - off) + ch + "b" * 7 for off in (1, 2, 3))[: boundary + 64] + "a" * (boundary - 70) + ch * 40 + "tail"
+                if not one_round(ctx, r, st, ids, None, force=(mode, "chunk %d" % boundary, body)):
+                    return
         n = 120 if ctx.quick else 2500
         for i in range(n):
             if not one_round(ctx, r, st, ids, None, big=(i % 60 == 7)):
